@@ -10,7 +10,7 @@ fn corpus_case(rng: &mut Rng, small: bool, sel: usize) -> ConnCase {
     let mut tries = 0;
     loop {
         tries += 1;
-        let kind = if tries <= 20 { sel % 12 } else { rng.below(12) };
+        let kind = if tries <= 20 { sel % 14 } else { rng.below(14) };
         let c = match kind {
             10 => {
                 // Expect: 100-continue from a client that does not wait: the body comes with the head
@@ -51,6 +51,24 @@ fn corpus_case(rng: &mut Rng, small: bool, sel: usize) -> ConnCase {
                 bytes.extend_from_slice(format!("{:x}\r\n", n).as_bytes());
                 bytes.extend((0..n).map(|i| b'a' + i as u8));
                 bytes.extend_from_slice(b"XX\r\n0\r\n\r\n");
+                let a = Action { as_reader: 1, read_total: 64, buf: *rng.pick(&[1usize, 3, 64]), delay_ms: 0, fin: Finish::Respond(g::ok_resp(0, rng)), zero_read: false };
+                ConnCase { bytes, mode: Mode::HalfClose, hold: None, segs: vec![], script: vec![a], unix: false, intent: "i_lossy=1".to_string() }
+            }
+            12 | 13 => {
+                // a chunked body that ends in an error AFTER complete chunks, each followed by its CR LF:
+                // the stream ends before the last chunk (12), or a size line is not hexadecimal (13).
+                // Everything in front of the error is obtained, however the bytes were segmented.
+                let mut bytes = b"POST /cutchunks HTTP/1.1\r\nHost: x\r\nTransfer-Encoding: chunked\r\n\r\n".to_vec();
+                let k = rng.range(1, 3);
+                for j in 0..k {
+                    let n = rng.range(1, 9);
+                    bytes.extend_from_slice(format!("{:x}\r\n", n).as_bytes());
+                    bytes.extend((0..n).map(|i| b'a' + ((i + j) % 26) as u8));
+                    bytes.extend_from_slice(b"\r\n");
+                }
+                if kind == 13 {
+                    bytes.extend_from_slice(b"zz\r\nmore\r\n0\r\n\r\n");
+                }
                 let a = Action { as_reader: 1, read_total: 64, buf: *rng.pick(&[1usize, 3, 64]), delay_ms: 0, fin: Finish::Respond(g::ok_resp(0, rng)), zero_read: false };
                 ConnCase { bytes, mode: Mode::HalfClose, hold: None, segs: vec![], script: vec![a], unix: false, intent: String::new() }
             }
